@@ -208,6 +208,8 @@ def replay_behaviours(ctx, model, behs, opts=None, label=''):
     ctx.traces += len(jobs)
     ctx.count('replayed_steps', sum(len(j[2]) for j in jobs))
     ctx.count('replay_wall_s', round(time.time() - t0, 1))
+    if (opts or {}).get('record'):
+        ctx.extra.setdefault('_recorded', []).extend(ev for _, r in out for ev in r.get('events', []))
     return jobs, [(i, r) for i, r in out if r['mismatches']]
 
 
